@@ -13,8 +13,11 @@ package c20
 import (
 	"archive/tar"
 	"bytes"
+	"compress/gzip"
 	"context"
 	"crypto/hpke"
+	"crypto/sha256"
+	"encoding/hex"
 	"encoding/binary"
 	"encoding/json"
 	"errors"
@@ -28,6 +31,7 @@ import (
 	"testing"
 	"testing/cryptotest"
 
+	"github.com/klauspost/compress/zstd"
 	"github.com/specterops/dawgs/retriever"
 	"github.com/specterops/dawgs/verifsim/simos"
 	"github.com/specterops/dawgs/verifsim/simrt"
@@ -56,12 +60,13 @@ type WL struct {
 
 var kindsFor = map[string][]string{
 	"loaddir": {"frag_byte", "frag_byte", "frag_trunc", "frag_extend", "frag_swap", "frag_remove", "manifest_byte", "manifest_byte", "manifest_byte", "manifest_trunc",
-		"mf_count", "mf_cbytes", "mf_sha", "mf_path", "mf_phase", "mf_codec", "mf_graphcount", "mf_nodecount", "mf_dropmetrics", "mf_metrics_value", "extra_garbage_manifest"},
+		"mf_count", "mf_cbytes", "mf_sha", "mf_path", "mf_phase", "mf_codec", "mf_graphcount", "mf_nodecount", "mf_dropmetrics", "mf_metrics_value", "extra_garbage_manifest",
+		"resigned_bad_edge", "resigned_bad_edge", "resigned_dup_node", "mf_path_alias"},
 	"tarload": {"byte", "byte", "trunc", "extend", "hostile", "hostile", "hostile", "readerr"},
-	"unpackenc": {"byte", "byte", "trunc", "extend", "frame_swap", "frame_dup", "frame_drop", "frame_dropfinal", "frame_type", "wrongkey", "hostile", "readerr"},
-	"unpack":    {"byte", "byte", "trunc", "extend", "frame_swap", "frame_dup", "frame_drop", "frame_dropfinal", "frame_type", "wrongkey", "hostile", "hostile", "readerr"},
+	"unpackenc": {"byte", "byte", "trunc", "extend", "frame_swap", "frame_dup", "frame_drop", "frame_dropfinal", "frame_type", "wrongkey", "hostile", "readerr", "inner_frag_byte", "inner_alias_corrupt", "inner_alias_only"},
+	"unpack":    {"byte", "byte", "trunc", "extend", "frame_swap", "frame_dup", "frame_drop", "frame_dropfinal", "frame_type", "wrongkey", "hostile", "hostile", "readerr", "inner_frag_byte", "inner_alias_corrupt", "inner_alias_only"},
 	"loadarchive": {"byte", "byte", "trunc", "extend", "frame_swap", "frame_dup", "frame_drop", "frame_dropfinal", "wrongkey", "hostile", "readerr",
-		"inner_frag_byte", "inner_manifest_byte"},
+		"inner_frag_byte", "inner_manifest_byte", "inner_alias_corrupt", "inner_alias_only"},
 	"key": {"byte", "trunc", "swaptype", "empty", "notjson"},
 }
 
@@ -482,10 +487,160 @@ func bump(v any, d int64) any {
 	return v
 }
 
+func decodeFrag(b []byte, codec string) ([]byte, error) {
+	switch codec {
+	case "gzip":
+		g, err := gzip.NewReader(bytes.NewReader(b))
+		if err != nil {
+			return nil, err
+		}
+		return io.ReadAll(g)
+	case "zstd":
+		z, err := zstd.NewReader(bytes.NewReader(b))
+		if err != nil {
+			return nil, err
+		}
+		defer z.Close()
+		return io.ReadAll(z)
+	}
+	return b, nil
+}
+
+func encodeFrag(b []byte, codec string) []byte {
+	var out bytes.Buffer
+	switch codec {
+	case "gzip":
+		g := gzip.NewWriter(&out)
+		g.Write(b)
+		g.Close()
+	case "zstd":
+		z, _ := zstd.NewWriter(&out)
+		z.Write(b)
+		z.Close()
+	default:
+		out.Write(b)
+	}
+	return out.Bytes()
+}
+
+func sha256hex(b []byte) string {
+	h := sha256.Sum256(b)
+	return hex.EncodeToString(h[:])
+}
+
+// resign rewrites one fragment with edit applied to its decoded JSON lines and updates the manifest
+// entry (sizes, sha256) so that every integrity field is consistent again: what is left wrong is
+// only the collection's structure (a relationship endpoint that is not a node of that graph, a
+// duplicated node id), which must be rejected before anything is written.
+func (a *art) resign(dir string, phase string, pick uint32, edit func(lines []map[string]any, otherIDs []string) bool) bool {
+	var m map[string]any
+	dec := json.NewDecoder(bytes.NewReader(a.manifest))
+	dec.UseNumber()
+	if dec.Decode(&m) != nil {
+		return false
+	}
+	gs, _ := m["graphs"].([]any)
+	type cand struct {
+		f  map[string]any
+		gi int
+	}
+	var cands []cand
+	nodeIDs := make([][]string, len(gs))
+	for gi, g := range gs {
+		gm, _ := g.(map[string]any)
+		fs, _ := gm["files"].([]any)
+		for _, f := range fs {
+			fm, _ := f.(map[string]any)
+			if fm["phase"] == phase {
+				cands = append(cands, cand{fm, gi})
+			}
+			if fm["phase"] == "nodes" {
+				p, _ := fm["path"].(string)
+				raw, err := os.ReadFile(filepath.Join(a.dump, filepath.FromSlash(p)))
+				if err != nil {
+					continue
+				}
+				plain, err := decodeFrag(raw, a.w.Opts.Codec)
+				if err != nil {
+					continue
+				}
+				for _, ln := range bytes.Split(bytes.TrimSpace(plain), []byte("\n")) {
+					var rec map[string]any
+					if json.Unmarshal(ln, &rec) == nil {
+						if id, ok := rec["id"].(string); ok {
+							nodeIDs[gi] = append(nodeIDs[gi], id)
+						}
+					}
+				}
+			}
+		}
+	}
+	if len(cands) == 0 {
+		return false
+	}
+	c := cands[int(pick)%len(cands)]
+	rel, _ := c.f["path"].(string)
+	raw, err := os.ReadFile(filepath.Join(dir, filepath.FromSlash(rel)))
+	if err != nil {
+		return false
+	}
+	plain, err := decodeFrag(raw, a.w.Opts.Codec)
+	if err != nil {
+		return false
+	}
+	var lines []map[string]any
+	for _, ln := range bytes.Split(bytes.TrimSpace(plain), []byte("\n")) {
+		var rec map[string]any
+		d := json.NewDecoder(bytes.NewReader(ln))
+		d.UseNumber()
+		if d.Decode(&rec) != nil {
+			return false
+		}
+		lines = append(lines, rec)
+	}
+	// ids that exist in OTHER graphs but not in this one
+	own := map[string]bool{}
+	for _, id := range nodeIDs[c.gi] {
+		own[id] = true
+	}
+	var others []string
+	for gi, ids := range nodeIDs {
+		if gi == c.gi {
+			continue
+		}
+		for _, id := range ids {
+			if !own[id] {
+				others = append(others, id)
+			}
+		}
+	}
+	if !edit(lines, others) {
+		return false
+	}
+	var nb bytes.Buffer
+	for _, rec := range lines {
+		b, _ := json.Marshal(rec)
+		nb.Write(b)
+		nb.WriteByte('\n')
+	}
+	enc := encodeFrag(nb.Bytes(), a.w.Opts.Codec)
+	os.WriteFile(filepath.Join(dir, filepath.FromSlash(rel)), enc, 0o600)
+	c.f["compressed_bytes"] = json.Number(fmt.Sprint(len(enc)))
+	c.f["uncompressed_bytes"] = json.Number(fmt.Sprint(nb.Len()))
+	c.f["sha256"] = sha256hex(enc)
+	out, err := json.MarshalIndent(m, "", "  ")
+	if err != nil {
+		return false
+	}
+	os.WriteFile(filepath.Join(dir, "manifest.json"), out, 0o600)
+	return true
+}
+
 func (a *art) runLoadDir(mu Mut) (string, string) {
 	dir := copyDump(a, "in")
 	tag := fmt.Sprintf("loaddir/%s", mu.Kind)
 	mustErr := true
+	forceNoVerify := false
 	mp := filepath.Join(dir, "manifest.json")
 	pickFrag := func() (string, []byte) {
 		rel := a.frags[int(mu.A)%len(a.frags)]
@@ -535,6 +690,54 @@ func (a *art) runLoadDir(mu Mut) (string, string) {
 		os.WriteFile(mp, nb, 0o600)
 		mustErr = false // H3: not every manifest byte is authenticated
 		tag += fmt.Sprintf("@%d (%q -> %q)", off, a.manifest[off], nb[off])
+	case "resigned_bad_edge":
+		ok := a.resign(dir, "edges", mu.A, func(lines []map[string]any, others []string) bool {
+			if len(lines) == 0 {
+				return false
+			}
+			bad := "987654321"
+			if len(others) > 0 && mu.C%2 == 0 {
+				bad = others[int(mu.B)%len(others)] // a node of another graph of the same collection
+				a.counters["resigned_edge_to_other_graph_node"]++
+			}
+			field := "start_id"
+			if mu.B%2 == 1 {
+				field = "end_id"
+			}
+			lines[int(mu.B/2)%len(lines)][field] = bad
+			return true
+		})
+		if !ok {
+			return "", ""
+		}
+		forceNoVerify = true
+	case "resigned_dup_node":
+		ok := a.resign(dir, "nodes", mu.A, func(lines []map[string]any, _ []string) bool {
+			if len(lines) < 2 {
+				return false
+			}
+			lines[1+int(mu.B)%(len(lines)-1)]["id"] = lines[0]["id"]
+			return true
+		})
+		if !ok {
+			return "", ""
+		}
+		forceNoVerify = true
+	case "mf_path_alias":
+		nb, ok := editManifest(a.manifest, func(m map[string]any) bool {
+			f, _, has := firstFile(m, mu.A)
+			if !has {
+				return false
+			}
+			p, _ := f["path"].(string)
+			f["path"] = []string{"./" + p, strings.Replace(p, "/", "//", 1), p + " "}[int(mu.B)%3]
+			return true
+		})
+		if !ok {
+			return "", ""
+		}
+		os.WriteFile(mp, nb, 0o600)
+		mustErr = false // another spelling of the same file: nil is fine if the right graph is loaded
 	case "manifest_trunc":
 		os.WriteFile(mp, a.manifest[:int(mu.A)%len(a.manifest)], 0o600)
 		mustErr = false // cutting only the trailing newline leaves the same document (H3)
@@ -628,7 +831,12 @@ func (a *art) runLoadDir(mu Mut) (string, string) {
 	a.evals++
 	a.counters["loaddir_"+mu.Kind]++
 	simos.Reset(a.plan())
+	saveVerify := a.w.Verify
+	if forceNoVerify {
+		a.w.Verify = false // the metrics block describes the original content; structure must be rejected first
+	}
 	c, d := a.loadDir(dir, mustErr, tag)
+	a.w.Verify = saveVerify
 	if c2, d2 := a.containment(tag); c == "" && c2 != "" {
 		c, d = c2, d2
 	}
@@ -768,10 +976,71 @@ func (a *art) mutateStream(mu Mut, enc bool) (data []byte, key hpke.PrivateKey, 
 		data = a.encrypt(writeTar(es), 4096)
 		mustErr = mu.Kind == "inner_frag_byte"
 		tag += fmt.Sprintf(" %s@%d", es[i].hdr.Name, off)
+	case "inner_alias_corrupt", "inner_alias_only":
+		if !enc {
+			return nil, nil, 0, false, "", false
+		}
+		es := parseTar(a.tarBytes)
+		mi, fi := -1, -1
+		var frags []int
+		for i, e := range es {
+			if e.hdr.Name == "manifest.json" {
+				mi = i
+			} else if len(e.body) > 0 {
+				frags = append(frags, i)
+			}
+		}
+		if mi < 0 || len(frags) == 0 {
+			return nil, nil, 0, false, "", false
+		}
+		fi = frags[int(mu.A)%len(frags)]
+		name := es[fi].hdr.Name
+		alias := []string{"./" + name, strings.Replace(name, "/", "//", 1), " " + name}[int(mu.B)%3]
+		nb, ok2 := editManifest(es[mi].body, func(m map[string]any) bool {
+			gs, _ := m["graphs"].([]any)
+			done := false
+			for _, g := range gs {
+				gm, _ := g.(map[string]any)
+				fs, _ := gm["files"].([]any)
+				for _, f := range fs {
+					fm, _ := f.(map[string]any)
+					if fm["path"] == name {
+						fm["path"] = alias
+						done = true
+					}
+				}
+			}
+			return done
+		})
+		if !ok2 {
+			return nil, nil, 0, false, "", false
+		}
+		es[mi].body = nb
+		mustErr = false
+		if mu.Kind == "inner_alias_corrupt" {
+			off := int(mu.C) % len(es[fi].body)
+			es[fi].body = flip(es[fi].body, off, byte(mu.C>>8))
+			mustErr = true // the fragment no longer matches the manifest's sha256
+		}
+		data = a.encrypt(writeTar(es), 4096)
+		tag += fmt.Sprintf(" %s as %q", name, alias)
 	default:
 		return nil, nil, 0, false, "", false
 	}
 	return data, key, failAfter, mustErr, tag, true
+}
+
+// intact: an unpack that reports success must have produced an intact collection - the manifest
+// reads back and every fragment it lists matches its recorded size and sha256.
+func intact(dir string) string {
+	m, err := retriever.ReadManifest(dir)
+	if err != nil {
+		return "the unpacked manifest does not read back: " + err.Error()
+	}
+	if err := retriever.VerifyManifestFiles(dir, m); err != nil {
+		return "the unpacked collection is corrupt: " + err.Error()
+	}
+	return ""
 }
 
 func reader(data []byte, failAfter int) io.Reader {
@@ -861,6 +1130,9 @@ func (a *art) runStream(mu Mut) (string, string) {
 			return "oracle:tamper_accepted", tag + ": UnpackEncryptedCollectionArchive returned nil"
 		}
 		if err == nil {
+			if d := intact(out); d != "" {
+				return "oracle:corrupt_collection_unpacked", tag + ": UnpackEncryptedCollectionArchive returned nil but " + d
+			}
 			class, detail = a.loadDir(out, false, tag+" -> Load")
 		} else {
 			a.counters["rejected"]++
@@ -889,6 +1161,9 @@ func (a *art) runStream(mu Mut) (string, string) {
 				return "oracle:partial_output", fmt.Sprintf("%s: Unpack failed (%v) and left %s behind", tag, err, filepath.Base(l[0]))
 			}
 		} else {
+			if d := intact(out); d != "" {
+				return "oracle:corrupt_collection_unpacked", tag + ": Unpack returned nil but " + d
+			}
 			class, detail = a.loadDir(out, false, tag+" -> Load")
 		}
 	case "loadarchive":
